@@ -202,3 +202,31 @@ fn c01_event_guard_info_without_cache_contract_canary() {
     emit();
     assert!(s.events.load(AO::SeqCst) == accepts(ans, d1) as usize, "C01.canary.delivered_iff_own_filter_accepts_WITHOUT_H1");
 }
+
+// every PREFIX form of event! (name: / target: / parent: - each a separate hand-written arm with its own copy of the guard)
+#[kani::proof]
+#[kani::unwind(4)]
+#[kani::stub(core::fmt::Formatter::pad, pad_stub)]
+#[kani::stub(tracing_core::dispatch::get_default, get_default_stub)]
+#[kani::stub(tracing_core::metadata::LevelFilter::current, current_stub)]
+#[kani::stub(tracing_core::callsite::register, register_stub)]
+fn c01_event_guard_prefix_forms_under_cache_contracts() {
+    let s = new_st();
+    let (cur, ans, hint) = scenario(3, &s);
+    CUR_DISPATCH.store(&cur as *const Dispatch as usize, AO::SeqCst);
+    any_allowed_state(ans, hint);
+    let d1 = set_dyn(ans, &s);
+    let form: u8 = nd(); kani::assume(form < 8);
+    match form {
+        0 => crate::event!(Level::INFO, answer = 42u64),
+        1 => crate::event!(target: "t", Level::INFO, answer = 42u64),
+        2 => crate::event!(name: "n", Level::INFO, answer = 42u64),
+        3 => crate::event!(parent: None, Level::INFO, answer = 42u64),
+        4 => crate::event!(name: "n", target: "t", Level::INFO, answer = 42u64),
+        5 => crate::event!(target: "t", parent: None, Level::INFO, answer = 42u64),
+        6 => crate::event!(name: "n", parent: None, Level::INFO, answer = 42u64),
+        _ => crate::event!(name: "n", target: "t", parent: None, Level::INFO, answer = 42u64),
+    }
+    assert!(s.events.load(AO::SeqCst) == accepts(ans, d1) as usize, "C01.event.prefix_forms.delivered_iff_own_filter_accepts");
+    kani::cover!(form == 5 && !accepts(ans, d1), "C01.reachable.target_parent_form_rejected");
+}
